@@ -62,6 +62,12 @@ def _canonical_case(names):
         for pi, perm in enumerate(perms):
             f = formulas.formula([pairs[i] for i in perm])
             same_structure(E, 'canonical.perm%d' % pi, f.hill.structure, href.structure)
+        # a structure with a single top-level term: the whole formula in one group, and a scaled formula
+        g1 = E.real('g1', lo=0, lo_open=True, hi=1000, sample=2.5)
+        wrapped = formulas.formula([(g1, [(c / g1, a) for c, a in pairs[::-1]])])
+        same_structure(E, 'canonical.single_group', wrapped.hill.structure, href.structure)
+        scaled = g1 * formulas.formula([(c / g1, a) for c, a in pairs[::-1]])
+        same_structure(E, 'canonical.scaled', scaled.hill.structure, href.structure)
         if len(pairs) >= 3:
             g = E.real('g', lo=0, lo_open=True, hi=1000, sample=3.5)
             grouped = formulas.formula([(g, [(counts[0] / g, atoms[0]), (counts[1] / g, atoms[1])])] + [p for p in pairs[2:]][::-1])
